@@ -4,7 +4,7 @@ Units declare which properties they serve in their own headers; this file carrie
 TRUSTED_BASE = [
     'rustc + the Kani compiler 0.68 + CBMC 6.11 (bit-precise, incl. IEEE-754) for Kani obligations',
     'Verus 0.2026.09.13 + Z3 for Verus obligations; vstd specifications of Vec/Option/Result/slice/HashMap',
-    "the driver's item locator/extractor (lib/rbv/rustlex.py, extract.py): cuts items by brace matching, applies only rewrites R1,R2,R4 and the return-value naming, each recorded in the evidence",
+    "the driver's item locator/extractor (lib/rbv/rustlex.py, extract.py): cuts items by brace matching, applies only the fixed rewrite list of DESIGN.md 1.2 (R1-R14, A, H, the return-value naming), every application recorded in the evidence",
     'Kani std models; core::fmt formatting and str::parse are not verified',
 ]
 
